@@ -73,6 +73,17 @@ func c25Classify(err error, n int) string {
 	return "err other " + strings.ReplaceAll(s, " ", "_")
 }
 
+func c25Argv(a []string) string {
+	if a == nil {
+		return "-"
+	}
+	parts := make([]string, len(a))
+	for i, x := range a {
+		parts[i] = hexTok([]byte(x))
+	}
+	return strings.Join(parts, ",")
+}
+
 func c25Meta(f []string) *shell.ShellMeta {
 	m := &shell.ShellMeta{Password: string(unhexTok(f[1])), Command: string(unhexTok(f[2]))}
 	for _, a := range f[3:] {
@@ -122,9 +133,63 @@ func c25Run(line string) string {
 			c25Exec.ReleaseSession()
 		}
 		return out
+	case "argv":
+		// what would RUN: the session is built by the real NewSession (never started, so any admitted
+		// command and argument is harmless) and the exec.Cmd argument vector is read back
+		sess, err := c25Exec.NewSession(context.Background(), c25Meta(f))
+		out := c25Classify(err, c25Exec.ActiveSessions())
+		if err == nil {
+			out += " argv=" + c25Argv(shell.VerifC25SessionArgv(sess))
+			shell.VerifC25SessionDiscard(sess)
+			c25Exec.ReleaseSession()
+		}
+		return out
+	case "argvp":
+		// the same through NewPTYSession, which starts the process: the generator uses /bin/echo only
+		m := c25Meta(f)
+		m.TTY = &shell.TTYSettings{Rows: 24, Cols: 80}
+		s, err := c25Exec.NewPTYSession(context.Background(), m)
+		if err != nil && strings.HasPrefix(err.Error(), "failed to start PTY") {
+			return fmt.Sprintf("ok %d argv=-", c25Exec.ActiveSessions()+1)
+		}
+		out := c25Classify(err, c25Exec.ActiveSessions())
+		if err == nil {
+			out += " argv=" + c25Argv(shell.VerifC25PTYArgv(s))
+			s.Close()
+			c25Exec.ReleaseSession()
+		}
+		return out
 	case "rel":
 		c25Exec.ReleaseSession()
 		return fmt.Sprintf("sessions %d", c25Exec.ActiveSessions())
+	case "stressv":
+		// admission under concurrency: `threads` authenticated requests arrive together (bcrypt in
+		// between widens any gap between the limit check and the increment); nobody releases, so the
+		// number admitted must not exceed max
+		max, _ := strconv.Atoi(f[1])
+		threads, _ := strconv.Atoi(f[2])
+		h, err := bcrypt.GenerateFromPassword([]byte("secret"), 8)
+		must(err)
+		e := shell.NewExecutor(shell.Config{Enabled: true, Whitelist: []string{"true"}, MaxSessions: max, PasswordHash: string(h)})
+		var admitted int64
+		var wg sync.WaitGroup
+		start := make(chan struct{})
+		for t := 0; t < threads; t++ {
+			wg.Add(1)
+			go func() {
+				defer wg.Done()
+				<-start
+				if shell.VerifC25ValidateAndAcquire(e, &shell.ShellMeta{Command: "true", Password: "secret"}) == nil {
+					atomic.AddInt64(&admitted, 1)
+				}
+			}()
+		}
+		close(start)
+		wg.Wait()
+		if max > 0 && (admitted > int64(max) || e.ActiveSessions() > max) {
+			return fmt.Sprintf("stress exceeded %d", admitted)
+		}
+		return "stress ok"
 	case "stress":
 		max, _ := strconv.Atoi(f[1])
 		threads, _ := strconv.Atoi(f[2])
@@ -346,6 +411,56 @@ func c25Gen(w *bufio.Writer, seed int64, tier string) {
 			fmt.Fprintln(w)
 		}
 	}
+	// what runs: arguments with leading / trailing white space, CR / LF, tabs, NUL, quotes around
+	// absolute paths and around metacharacters — the process must get exactly the validated vector
+	pads := []string{" ", "\n", "\r\n", "\t", "  ", "\x00", "\v", "\f", "\u00a0", "\u2003", "\"", "'"}
+	cores := []string{"/etc/shadow", "/", "hello", "a;b", "$(id)", "-n", "", "x y", "`id`", "../x", "~root", "C:\\x", "*"}
+	nargv := 120
+	if tier == "thorough" {
+		nargv = 6000
+	}
+	for i := 0; i < nargv; i++ {
+		wl := []string{"echo", "ls"}
+		if r.chance(25) {
+			wl = []string{"*"}
+		}
+		fmt.Fprintf(w, "reset 1 %d - %d", r.pick(0, 0, 2), len(wl))
+		for _, x := range wl {
+			fmt.Fprintf(w, " %s", hexTok([]byte(x)))
+		}
+		fmt.Fprintln(w)
+		for j := 0; j < 4; j++ {
+			var args []string
+			for a := r.pick(1, 1, 2, 3); a > 0; a-- {
+				core := cores[r.intn(len(cores))]
+				arg := core
+				switch r.intn(6) {
+				case 0:
+					arg = pads[r.intn(len(pads))] + core
+				case 1:
+					arg = core + pads[r.intn(len(pads))]
+				case 2:
+					p := pads[r.intn(len(pads))]
+					arg = p + core + p
+				case 3:
+					arg = pads[r.intn(len(pads))] + pads[r.intn(len(pads))] + core + pads[r.intn(len(pads))]
+				}
+				args = append(args, arg)
+			}
+			op, cmd := "argv", r.pickS("echo", "echo", "ls", "cat")
+			if r.chance(20) {
+				op, cmd = "argvp", "echo"
+				for k := range args { // the PTY variant starts the process: no NUL bytes
+					args[k] = strings.ReplaceAll(args[k], "\x00", "\n")
+				}
+			}
+			fmt.Fprintf(w, "%s - %s", op, hexTok([]byte(cmd)))
+			for _, a := range args {
+				fmt.Fprintf(w, " %s", hexTok([]byte(a)))
+			}
+			fmt.Fprintln(w)
+		}
+	}
 	// every byte value as a one-byte argument and inside an argument, non-wildcard whitelist
 	fmt.Fprintf(w, "reset 1 0 - 1 %s\n", hexTok([]byte("echo")))
 	for b := 0; b < 256; b++ {
@@ -360,6 +475,9 @@ func c25Gen(w *bufio.Writer, seed int64, tier string) {
 	}
 	for i := 0; i < st; i++ {
 		fmt.Fprintf(w, "reset 1 0 - 0\nstress %d %d %d\n", r.pick(1, 1, 2, 3, 5, 0), r.pick(2, 4, 8, 16), r.pick(200, 1000, 3000))
+	}
+	for i := 0; i < st/2; i++ {
+		fmt.Fprintf(w, "reset 1 0 - 0\nstressv %d %d\n", r.pick(1, 1, 2, 3), r.pick(6, 12, 24))
 	}
 }
 
